@@ -233,7 +233,9 @@ pub fn generate(rng: &mut Rng, mode: Prop) -> Scenario {
                 let total = pick_pkt_index(rng, p0len - 8);
                 let idx = if rng.chance(1, 2) { rng.below(8.min(total as u64 + 1)) as usize } else { total - rng.below(8.min(total as u64 + 1)) as usize };
                 let reg = total - idx;
-                gen_probe_pkt_ind(tag, idx, reg, *rng.pick(&[1u8, 1, 2, 4, 8]))
+                // any register may carry the register part (r0 included: it is also the destination)
+                let src = *rng.pick(&[3u8, 3, 0, 2, 4, 5, 6, 7, 8]);
+                gen_probe_pkt_ind(tag, idx, reg, *rng.pick(&[1u8, 1, 2, 4, 8]), src)
             }
             Class::ProbeR1Load => {
                 // the index is the instruction's 16-bit signed offset
